@@ -1,7 +1,7 @@
 (* run_cmd : the single entry point of the extracted model. A command is
    (L (A code :: args)); decoding and encoding are Gallina. *)
 From Coq Require Import List ZArith NArith Bool.
-From BS Require Import Base.Sexp Base.Types Base.Reader Model.Registry Model.SmartQuotes Model.Attrs Model.Heap Model.Edit Model.Build Model.Iter Spec.Tree.
+From BS Require Import Base.Sexp Base.Types Base.Reader Model.Registry Model.SmartQuotes Model.Attrs Model.Heap Model.Edit Model.Build Model.Iter Spec.Tree Spec.BuildSpec.
 Import ListNotations.
 Open Scope Z_scope.
 
@@ -171,6 +171,27 @@ Definition cmd_build (args : list sexp) : sexp :=
   | c :: evs :: _ => s_bstate (feed (g_cfg c) (glist g_event evs))
   | _ => A (-1)
   end.
+(* (31 cfg events) -> 1 iff the conclusion of Proofs.BuildRefines.build_refines holds on this run
+   (evaluated, not proved: used to validate the statement against the implementation's runs) *)
+Definition payload_eqb (a b : payload) : bool :=
+  str_eqb (p_name a) (p_name b) && opt_str_eqb (p_prefix a) (p_prefix b) && N.eqb (p_cls a) (p_cls b) &&
+  Bool.eqb (p_void a) (p_void b) &&
+  list_eqb (map (fun kv => (length (fst kv) + length (snd kv))%nat) (p_attrs a))
+           (map (fun kv => (length (fst kv) + length (snd kv))%nat) (p_attrs b)).
+Definition build_refines_b (cfg : bconfig) (evs : list event) : bool :=
+  let b := feed cfg evs in
+  let nodes := spec_run cfg evs in
+  Nat.eqb (nxt (b_st b)) (length nodes) &&
+  forallb (fun x =>
+    let n := nth x nodes (mksn None no_payload) in
+    oeqb (par (hp (b_st b) x)) (sn_parent n) && payload_eqb (b_pay b x) (sn_pay n) &&
+    list_eqb (kids (hp (b_st b) x)) (children_of nodes x)) (seq 0 (length nodes)) &&
+  list_eqb (b_stack b) [0%nat] && oeqb (b_cur b) (Some 0%nat).
+Definition cmd_build_refines (args : list sexp) : sexp :=
+  match args with
+  | c :: evs :: _ => sbool (build_refines_b (g_cfg c) (glist g_event evs))
+  | _ => A (-1)
+  end.
 (* (10 cfg events ops) -> (build-state (status state)...) *)
 Definition cmd_history (args : list sexp) : sexp :=
   match args with
@@ -186,6 +207,7 @@ Definition run_cmd (c : sexp) : sexp :=
       match code with
       | 10 => cmd_history args
       | 30 => cmd_build args
+      | 31 => cmd_build_refines args
       | 20 => cmd_c20_lookup args
       | 21 => cmd_c20_construct args
       | 170 => cmd_c17 0 args
